@@ -283,16 +283,16 @@ def ROUNDDOWN(number, digits):
 @dispatcher.register_for('SUM')
 def SUM(*args):
     # all items first: an error value among them is the result even if the sum of the items before it cannot be held
-    return sum(list(utils.inumbers(args, try_parse=True)))
+    return utils.exact_sum(list(utils.inumbers(args, try_parse=True)))
 
 
 @dispatcher.register_for('SUMIF')
 def SUMIF(args, criteria, sum_range=None):
     predicate = utils.parse_criteria(criteria)
     if sum_range is None:
-        return sum(utils.plain_number(a) for a in utils.iflatten(args) if predicate(a))
+        return utils.exact_sum(a for a in utils.iflatten(args) if predicate(a))
     # the cells of sum_range whose partners in the criteria range satisfy the criterion
-    return sum(utils.plain_number(b) for a, b in zip(utils.iflatten(args), utils.iflatten(sum_range)) if predicate(a))
+    return utils.exact_sum(b for a, b in zip(utils.iflatten(args), utils.iflatten(sum_range)) if predicate(a))
 
 
 @dispatcher.register_for('CEILING', 'CEILING.MATH', 'CEILING.PRECISE')
@@ -643,9 +643,9 @@ def SUMIFS(sum_args, *criteria):
     for criteria_range,pred in range_and_preds:
         if len(criteria_range) != sum_args_len:
             return error.VALUE
-    # summed as SUM sums (the interpreter's compensated sum for floats), not item by item
-    return sum(utils.plain_number(a) for i, a in enumerate(sum_args)
-               if all(pred(criteria_range[i]) for criteria_range, pred in range_and_preds))
+    # summed as SUM sums (rounded once), not item by item
+    return utils.exact_sum(a for i, a in enumerate(sum_args)
+                           if all(pred(criteria_range[i]) for criteria_range, pred in range_and_preds))
 
 
 @dispatcher.register_for('SIGN')
